@@ -46,8 +46,8 @@ def subsets(names):
             yield set(c)
 
 
-def desc_dfa(spec, scheme='s'):
-    Q, Sg, delta, q0, F = spaces.dfa_parts(spec, scheme)
+def desc_dfa(spec, scheme='s', letters='ab'):
+    Q, Sg, delta, q0, F = spaces.dfa_parts(spec, scheme, letters)
     edges = collections.OrderedDict()
     for (p, a), q in sorted(delta.items()):
         edges.setdefault((p, q), []).append(a)
